@@ -40,7 +40,15 @@ RULE = ("Tag multisets of size <= 3 (quick) / <= 4 (thorough; size 5 with plain 
         "the history, falsy, boolean sweeps and on 10 providers that look empty (None, {}, empty "
         "ActiveTagValueProvider, composites with no / only empty members, composites knowing a category in the last / "
         "only member, nested composite) x all tag multisets; run-first orders in the main sweep (value kinds str, lazy, "
-        "num_ge, first tag order) and for the shipped providers. Shipped providers: "
+        "num_ge, first tag order) and for the shipped providers. Values held in the composite provider itself: "
+        "{provider[c] = v, setup_active_tag_values(provider, {c: v}), each on a fresh provider and after a first matcher "
+        "query; member changed after the first query} x v in {BoolValueObject(False), BoolValueObject(True), '', 0, None, "
+        "False, 'x'} x member {lacks c, holds another value, holds the same value} x 2 composite line-ups x 4 query "
+        "orders x {with, without} provider.get reads before and after x tag multisets <= 2 (<= 3) over 8 tags of c: the "
+        "verdict follows the formula with the value put into the provider (the override wins; unknown when "
+        "setup_active_tag_values finds no such category); provider.get is idempotent and returns the override; where a "
+        "member changes after discovery either the kept or the re-read value is accepted, but the choice must not depend "
+        "on the value. Shipped providers: "
         "multisets <= 2 (<= 3) over ~100 tags (every category of behave.active_tag.python and .python_feature x "
         "prefixes x matching/non-matching/malformed values, versions below/equal/above the running interpreter) x "
         "{python dict, python_feature dict, ActiveTagValueProvider(python), Composite(python, python_feature)}, expected "
@@ -695,6 +703,156 @@ def check_history(case):
     return {"v": v, "nt": nt, "out": ("history", tuple(o[2] for o in obs[:6])), "dg": obs, "n": n}
 
 
+# ---- values held in the composite provider's own mapping ----------------------------------------------
+# A composite provider is a mapping of its own: provider[cat] = v (directly, or through
+# setup_active_tag_values(provider, userdata)) puts v into it, and a value discovered in a member is kept there.
+# What the provider reports (provider.get / provider[cat]) is the provider's current value; the matcher must decide
+# with exactly that value - whatever the value is (falsy values and value objects with a false __bool__ included) and
+# whatever the members say - and reading it must not change it.
+OV_ALPHABET = ("use.with_g=yes", "use.with_g=no", "not.with_g=yes", "use.with_g=x", "not.with_g=x", "use.with_g=",
+               "use.with_g=m", "not.with_g=m")
+OV_VALUES = ("BoolValueObject(False)", "BoolValueObject(True)", "''", "0", "None", "False", "'x'")
+OV_ROUTES = ("setitem", "setitem-after-query", "setup_active_tag_values", "setup_active_tag_values-after-query",
+             "member-changed-after-query")
+OV_MEMBER = ("absent", "other-value", "same-value")
+OV_LINEUPS = ("single-dict-member", "second-member-ActiveTagValueProvider")
+_OV_SENTINEL = object()
+
+
+def ov_value(name):
+    """-> (fresh real value, reference predicate, fresh 'other' value a member may hold, its predicate, falsy?)"""
+    if name.startswith("BoolValueObject"):
+        b = name == "BoolValueObject(True)"
+        return TM.BoolValueObject(b), ref_bool_predicate(b), TM.BoolValueObject(not b), ref_bool_predicate(not b), not b
+    v = {"''": "", "0": 0, "None": None, "False": False, "'x'": "x"}[name]
+    return v, (lambda tv, v=v: tv == v), "m", (lambda tv: tv == "m"), not v
+
+
+def ov_same(x, y):
+    return x is y or (type(x) is type(y) and not isinstance(x, TM.ValueObject) and x == y)
+
+
+def ov_run(route, member_state, lineup, vname, tags, order, probe):
+    """-> (observation, candidates) ; candidates = acceptable 'current value' readings [(label, known-dict)]"""
+    v, vpred, other, opred, _falsy = ov_value(vname)
+    changed = route == "member-changed-after-query"
+    if changed or member_state == "same-value":
+        init = {"g": v, "k": "1"}
+    elif member_state == "other-value":
+        init = {"g": other, "k": "1"}
+    else:
+        init = {"k": "1"}
+    member = dict(init) if lineup == "single-dict-member" else TM.ActiveTagValueProvider(dict(init))
+    members = [member] if lineup == "single-dict-member" else [{"o": "1"}, member]
+    provider = TM.CompositeActiveTagValueProvider(members)
+    matcher = TM.ActiveTagMatcher(provider)
+    obs = []
+    try:
+        if changed or route.endswith("-after-query"):
+            obs.append(("first", bool(matcher.should_exclude_with(["use.with_g=x", "use.with_k=1"]))))
+        if route.startswith("setitem"):
+            provider["g"] = v
+            cands = [("override", {"g": vpred})]
+        elif route.startswith("setup_active_tag_values"):
+            TM.setup_active_tag_values(provider, {"g": v, "unrelated": "1"})
+            # only categories the provider already lists are updated (documented)
+            cands = [("override", {"g": vpred})] if member_state != "absent" else [("unknown", {})]
+        else:
+            if member_state == "absent":
+                del member["g"]
+                cands = [("kept", {"g": vpred}), ("member-now", {})]
+            elif member_state == "other-value":
+                member["g"] = other
+                cands = [("kept", {"g": vpred}), ("member-now", {"g": opred})]
+            else:
+                member["g"] = ov_value(vname)[0]
+                cands = [("kept", {"g": vpred})]
+        for _label, kn in cands:
+            kn["k"] = lambda tv: tv == "1"
+        reads = []
+        if probe:
+            reads.append(provider.get("g", _OV_SENTINEL))
+            reads.append(provider.get("g", _OV_SENTINEL))
+        got = query_order(matcher, tags, order)
+        if probe:
+            reads.append(provider.get("g", _OV_SENTINEL))
+            try:
+                reads.append(provider["g"])
+            except KeyError:
+                reads.append(_OV_SENTINEL)
+    except Exception as ex:
+        return ("EXC", type(ex).__name__, obs), [], v
+    return (got, reads), cands, v
+
+
+def ov_show(x):
+    if x is _OV_SENTINEL:
+        return "<unknown>"
+    if isinstance(x, TM.ValueObject):
+        return "%s(%r)" % (type(x).__name__, x.value)
+    return repr(x)
+
+
+def check_override(case):
+    """one (route, member state, line-up, tag list): every value x query order x with/without provider reads"""
+    route, member_state, lineup, idxs = case
+    tags = tuple(OV_ALPHABET[i] for i in idxs)
+    rclass = "member-changed" if route.startswith("member") else "override"
+    v, obs, n = [], [], 0
+    policy = {}
+    for order in ORDERS:
+        for probe in (0, 1):
+            for vname in OV_VALUES:
+                res, cands, val = ov_run(route, member_state, lineup, vname, tags, order, probe)
+                n += 1
+                falsy = "falsy" if ov_value(vname)[4] else "truthy"
+                what = ("composite provider (%s), member %s, %s with value %s, calls %s%s"
+                        % (lineup, member_state, route, vname, order, ", provider.get read before/after" if probe else ""))
+                if res[0] == "EXC":
+                    obs.append((order, probe, vname, "EXC", res[1]))
+                    v.append(({"subcheck": "provider-value", "clause": "raises", "exc": res[1], "route": rclass,
+                               "value": falsy}, "%s: raised %s" % (what, res[1])))
+                    continue
+                got, reads = res
+                obs.append((order, probe, vname, got, [ov_show(r) for r in reads]))
+                fits = [label for label, kn in cands if not order_faults(got, ref_exclude(tags, kn), order)]
+                wants = sorted(set(ref_exclude(tags, kn) for _l, kn in cands))
+                if not fits:
+                    v.append(({"subcheck": "provider-value", "clause": "formula", "route": rclass, "value": falsy},
+                              "%s: tags %r -> (exclude, run) = %r; with the provider's current value (%s) the documented "
+                              "logic says exclude=%s" % (what, list(tags), got, " or ".join(l for l, _ in cands),
+                                                           " or ".join(map(str, wants)))))
+                elif len(cands) > 1 and len(wants) > 1 and len(fits) == 1:
+                    policy[(order, probe, vname)] = fits[0]
+                if probe:
+                    # reads are idempotent, and (for an override) report the overriding value
+                    if not all(ov_same(r, reads[0]) for r in reads[1:3]):
+                        v.append(({"subcheck": "provider-value", "clause": "provider-get-not-idempotent", "route": rclass,
+                                   "value": falsy},
+                                  "%s: provider.get('g') gave %s" % (what, [ov_show(r) for r in reads])))
+                    elif rclass == "override":
+                        exp = val if cands[0][0] == "override" else _OV_SENTINEL
+                        bad = [r for r in (reads if exp is not _OV_SENTINEL else reads[:3]) if not ov_same(r, exp)]
+                        if bad:
+                            v.append(({"subcheck": "provider-value", "clause": "provider-get-is-not-the-override",
+                                       "route": rclass, "value": falsy},
+                                      "%s: provider.get('g') x3 / provider['g'] gave %s, the value put into the provider "
+                                      "is %s" % (what, [ov_show(r) for r in reads], ov_show(exp))))
+    # where the statement is silent (member changed after discovery: kept or re-read) the policy must not
+    # depend on the value that was discovered
+    for (order, probe, vname), pol in sorted(policy.items()):
+        ctrl = policy.get((order, probe, "'x'")) or policy.get((order, probe, "BoolValueObject(True)"))
+        if ctrl and pol != ctrl:
+            v.append(({"subcheck": "provider-value", "clause": "keep-or-reread-depends-on-value", "route": rclass,
+                       "value": "falsy" if ov_value(vname)[4] else "truthy"},
+                      "composite provider (%s), member %s after the first query, calls %s: discovered value %s is treated "
+                      "as '%s' but a truthy discovered value as '%s' on tags %r"
+                      % (lineup, member_state, order, vname, pol, ctrl, list(tags))))
+    nt = ("override", case) if tags else None
+    first = obs[0][3] if obs else None
+    return {"v": v, "nt": nt, "out": ("override", route, first), "dg": obs, "n": n}
+
+
 # ---- providers that look empty ---------------------------------------------------------------------------
 # Truthiness / len() of a provider says nothing about what it knows: a composite provider is a UserDict whose
 # own data is only the lookup cache.  Every tag multiset x every order of the two questions, fresh objects each time.
@@ -888,7 +1046,8 @@ def run(ctx):
     ssize = 2 if ctx.quick else 3
     ntags = len(shipped_tags())
     ctx.bounds = {"multiset_size": size, "multiset_size_plain_strings": size if ctx.quick else 5,
-                  "query_orders": list(ORDERS), "query_order_value_kinds_main_sweep": list(ORDER_KINDS),
+                  "override_routes": list(OV_ROUTES), "override_values": list(OV_VALUES), "override_member_states": list(OV_MEMBER),
+                  "override_tag_multiset_size": 2 if ctx.quick else 3, "query_orders": list(ORDERS), "query_order_value_kinds_main_sweep": list(ORDER_KINDS),
                   "history_length": 2 if ctx.quick else 3, "history_operations": ["%s(%s)" % o for o in H_OPS],
                   "falsy_current_values": [n for n, _ in FALSY_VALUES], "falsy_alphabet": list(FALSY_ALPHABET), "alphabet": list(ALPHABET), "assignments": len(ASSIGNMENTS),
                   "value_kinds": list(KINDS), "providers": ["dict", "ActiveTagValueProvider", "Composite(2)"],
@@ -912,6 +1071,9 @@ def run(ctx):
                               for pk in H_PROVIDERS),
               chunk=32, name="provider histories before the matcher query")
     ctx.sweep(check_corner, multisets(len(ALPHABET), size), chunk=16, name="providers that look empty x query order")
+    ctx.sweep(check_override, ((r, ms, lu, t) for t in multisets(len(OV_ALPHABET), 2 if ctx.quick else 3)
+                               for r in OV_ROUTES for ms in OV_MEMBER for lu in OV_LINEUPS),
+              chunk=16, name="values held in the composite provider itself")
     ctx.sweep(check_shipped, multisets(ntags, ssize), chunk=64, name="shipped providers")
 
     py, pf = shipped_reference()
@@ -922,6 +1084,10 @@ def run(ctx):
     ctx.guard(sum(1 for k in ctx.nt if k[0] == "main") > 5000,
               "at least 5000 distinct (multiset, assignment) with an active tag of a known category")
     ctx.guard(sum(1 for k in ctx.nt if k[0] == "bool") > 500, "at least 500 non-trivial boolean cases")
+    ctx.guard(sum(1 for k in ctx.nt if k[0] == "override") > 1000, "at least 1000 non-trivial composite-override cases")
+    oo = set(k[1:] for k in ctx.outcomes if k[0] == "override")
+    ctx.guard(all((r, (None, False)) in oo and (r, (None, True)) in oo for r in OV_ROUTES),
+              "composite-override sweep: both verdicts observed on every route")
     ctx.guard(sum(1 for k in ctx.nt if k[0] == "corner") > 500, "at least 500 tag multisets on empty-looking providers")
     co = set(x for k in ctx.outcomes if k[0] == "corner" for x in k[1])
     ctx.guard((True, False) in co and (None, False) in co and (None, True) in co,
